@@ -162,8 +162,11 @@ def build_grid_call(case):
         td = xr.DataArray(np.array(case["td_vals"], dtype=td_dtype).reshape([l for _, l in case["tdims"]]),
                           dims=[d for d, _ in case["tdims"]], name=case["td_name"])
     lev = np.array(case["levels"], dtype=float)
+    if case.get("da_chunked"):
+        da = da.chunk({d: 1 for d in da.dims if d != nm("zc")})
     if case["target_kind"] == "arr":
-        target = xr.DataArray(lev, dims=[case["tname"]], coords={case["tname"]: lev})
+        target = xr.DataArray(lev, dims=[case["tname"]],
+                              coords=None if case.get("target_nocoord") else {case["tname"]: lev})
     else:
         target = lev
     kw = dict(method=case["method"], mask_edges=case["mask"], bypass_checks=case["bypass"])
